@@ -97,7 +97,11 @@ def rand_interval_entries(rng, nmax=6, hi=5.0, labels=None, allow_blank=False, t
         _, src = rand_time_source(rng)
     n = rng.randrange(0, nmax + 1)
     k = 2 * n
-    pts = sorted({src(hi) for _ in range(k * 2 + 2)})
+    raw = sorted({src(hi) for _ in range(k * 2 + 2)})
+    pts = []
+    for x in raw:  # keep boundaries at least 1e-6 apart: sub-resolution intervals are C04's subject
+        if not pts or x - pts[-1] > 1e-6:
+            pts.append(x)
     entries = []
     i = 0
     while len(entries) < n and i + 1 < len(pts):
@@ -117,7 +121,12 @@ def rand_point_entries(rng, nmax=6, hi=5.0, labels=None, src=None):
     if src is None:
         _, src = rand_time_source(rng)
     n = rng.randrange(0, nmax + 1)
-    pts = sorted({src(hi) for _ in range(n)})
+    pts = []
+    for x in sorted({src(hi) for _ in range(n)}):
+        # praatio's Point equality is tolerant (1e-14 abs / 1e-9 rel): points closer than that are the
+        # same point to the library, so they are not generated as distinct entries
+        if not pts or x - pts[-1] > 1e-6:
+            pts.append(x)
     return [(t, rng.choice(labels)) for t in pts]
 
 
